@@ -20,6 +20,7 @@ func ruleC02(prog *Program, rep *Report) {
 	ruleEscapeDecode(prog, rep)
 	ruleSurrogates(prog, rep)
 	ruleBigLimitAgree(prog, rep)
+	ruleFillOnce(prog, rep)
 	rulePoolPut(prog, rep, "oj.Parser", "gen.Parser", "sen.Parser", "oj.Tokenizer", "oj.Validator", "sen.Tokenizer") // a parser put back before its last use mixes two callers' documents
 	rep.Rules = append(rep.Rules, "A-events: value/token events of the four JSON front-ends agree with the reference at every byte (kind of each value: null/true/false/string/number/container, key vs value) - see C03")
 	rep.Rules = append(rep.Rules, "N-mirror: once a number no longer fits the accumulators its bytes are collected as text (Number.BigBuf); for every reachable step of the JSON front-ends (and of the SEN front-ends on JSON numbers) in which the reference is inside a number before and after the byte, the arm either adds the dispatched byte to BigBuf (directly, or through a Number method whose first case does so when the buffer is in use) or is on a path that tested the buffer to be empty: no sign, digit, point or exponent marker of a big number is dropped")
@@ -872,5 +873,99 @@ func ruleBigLimitAgree(prog *Program, rep *Report) {
 	rep.Eval(sites)
 	if sites < 8 {
 		rep.Errorf("N-limit examined %d digit loops (floor 8): anchors did not resolve", sites)
+	}
+}
+
+// ---------------------------------------------------------------- N-fillonce
+
+// ruleFillOnce: FillBig appends the text of the number accumulated so far to
+// BigBuf. Inside a digit loop it must be the last thing done to the number in
+// that loop: the block that calls it leaves the loop (break / return). A second
+// iteration would accumulate into the stale I/Frac and fill the text again.
+func ruleFillOnce(prog *Program, rep *Report) {
+	rep.Rules = append(rep.Rules, "N-fillonce: inside a loop of a front-end, the block that calls Number.FillBig() ends by leaving the loop (break or return): the text of the accumulated digits is written to BigBuf once")
+	n := 0
+	for _, rel := range []string{"oj", "gen", "sen"} {
+		pk := prog.Pkg(rel)
+		if pk == nil {
+			continue
+		}
+		for _, f := range pk.Syntax {
+			var stack []ast.Node
+			ast.Inspect(f, func(k ast.Node) bool {
+				if k == nil {
+					stack = stack[:len(stack)-1]
+					return true
+				}
+				stack = append(stack, k)
+				c, ok := k.(*ast.CallExpr)
+				if !ok {
+					return true
+				}
+				sel, ok := c.Fun.(*ast.SelectorExpr)
+				if !ok || sel.Sel.Name != "FillBig" || len(c.Args) != 0 {
+					return true
+				}
+				// innermost enclosing block and whether a loop encloses it (within the function)
+				var block *ast.BlockStmt
+				inLoop := false
+				fn := "?"
+				for i := len(stack) - 1; i >= 0; i-- {
+					switch s := stack[i].(type) {
+					case *ast.BlockStmt:
+						if block == nil {
+							block = s
+						}
+					case *ast.CaseClause:
+						if block == nil {
+							block = &ast.BlockStmt{List: s.Body}
+						}
+					case *ast.ForStmt, *ast.RangeStmt:
+						if block != nil {
+							inLoop = true
+						}
+					case *ast.FuncDecl:
+						fn = funcKey(s)
+						i = -1
+					}
+				}
+				if !inLoop || block == nil || len(block.List) == 0 {
+					return true
+				}
+				// only loops of the dispatch code: a loop body directly containing the block, not the byte loop itself
+				var loop ast.Node
+				for i := len(stack) - 1; i >= 0; i-- {
+					if _, ok := stack[i].(*ast.RangeStmt); ok {
+						loop = stack[i]
+						break
+					}
+					if _, ok := stack[i].(*ast.SwitchStmt); ok {
+						break // the call is in an arm of the dispatch switch, not in an inner digit loop
+					}
+				}
+				if loop == nil {
+					return true
+				}
+				n++
+				key := fmt.Sprintf("%s.%s:fillbig@%s", rel, fn, types.ExprString(sel.X))
+				leaves := false
+				switch l := block.List[len(block.List)-1].(type) {
+				case *ast.BranchStmt:
+					leaves = l.Tok == token.BREAK || l.Tok == token.GOTO
+				case *ast.ReturnStmt:
+					leaves = true
+				}
+				if leaves {
+					rep.Discharge("N-fillonce", key, prog.Pos(c.Pos()), "the block leaves the digit loop")
+				} else {
+					rep.Violate(Finding{Rule: "N-fillonce", Key: key + ":no-break", Pos: prog.Pos(c.Pos()), Msg: "FillBig() is called inside a digit loop and the loop goes on: the next digit is accumulated into the stale accumulator and the text is filled a second time (the digits appear twice in the number)"})
+				}
+				return true
+			})
+		}
+	}
+	rep.Eval(n)
+	if n < 4 {
+		rep.Errorf("N-fillonce examined %d FillBig calls inside digit loops (floor 4): anchors did not resolve", n)
 	}
 }
